@@ -18,6 +18,7 @@ RULE = ('grid of operand values {0, +-1, +-2, 127, 128, 255, 256, -128, -255, -2
         'operand tuple in one position; every application is non-trivial; distinct by (program, position in grid)')
 ASSUMPTIONS = common.ISA_ASSUMPTIONS[:3] + ['expected results: two\'s-complement wrap-around at the word size, signed comparison, zero-extension of bytes, '
                                             'truncation to the low byte on narrowing, truthiness of non-zero values, strict 0/1 booleans, floor division']
+REQUIRED_HIDC_FUNCTIONS = ['codegen/generator:CodeGen.bool_expr_branch', 'codegen/generator:CodeGen.truth_is_defeat', 'codegen/generator:CodeGen.un_op_reg_arg']     # M-COV: deciding code never entered => inconclusive
 MIN_NONTRIVIAL = {'quick': 30, 'thorough': 90}
 
 ARITH = ['+', '-', '*', '/', '%']
